@@ -210,9 +210,12 @@ class C17(Check):
             except Exception:
                 pass                      # reported by the frame cases
         single = [case['a']] if 'a' in case else range(len(angs))
+        # ONE axis array object is handed to every call of the case (a caller reusing its axis): the function must not
+        # write into it - seen through its consequences on the later matrices
+        shared_axis = axis.copy()
         for ia in (range(len(angs)) if 'b' in case or 'a' not in case else single):
             try:
-                mats[ia] = np.array(rotation_matrix(axis.copy(), angs[ia]), float)
+                mats[ia] = np.array(rotation_matrix(shared_axis, angs[ia]), float)
             except Exception as exc:
                 d = dict(case, a=ia)
                 R.case(d, outcome='exception', cls='rot/exception')
@@ -236,7 +239,7 @@ class C17(Check):
                     sig, det = 'rotation_matrix/trace', (float(np.trace(m)), 1.0 + 2.0 * math.cos(th))
                 else:
                     try:
-                        minus = np.array(rotation_matrix(axis.copy(), -th), float)
+                        minus = np.array(rotation_matrix(shared_axis, -th), float)
                         one = np.array(rotation_matrix(unit.copy(), th), float)
                     except Exception as exc:
                         sig, det = 'rotation_matrix/exception', repr(exc)
@@ -261,7 +264,7 @@ class C17(Check):
         for ia, ib in pairs:
             d = dict(case, a=ia, b=ib)
             try:
-                both = np.array(rotation_matrix(axis.copy(), angs[ia] + angs[ib]), float)
+                both = np.array(rotation_matrix(shared_axis, angs[ia] + angs[ib]), float)
             except Exception as exc:
                 R.case(d, outcome='exception')
                 R.violation('rotation_matrix/exception', d, repr(exc))
